@@ -46,7 +46,7 @@ def lean_type(t) -> str:
             return " × ".join(lean_type_atom(x) for x in t[1])
     return {"int": "Int", "nat": "Nat", "bool": "Bool", "dir": "Dir", "mode": "Mode", "agent": "Agent", "num": "Num", "R": "R",
             "coords": "List Coord", "es": "ES R", "unit": "Unit", "gen": "List Agent", "cfg": "StopCfg R", "book": "Book R",
-            "A": "α", "str": "String", "task": "τ", "self": "Self R σ τ", "objval": "ObjVal", "raws": "List Raw", "tasksem": "TaskSem"}[t]
+            "A": "α", "str": "String", "task": "τ", "self": "Self R σ τ", "objval": "ObjVal", "raws": "List Raw", "tasksem": "TaskSem", "vd": "VarDecl", "var": "Var", "vdget": "VarGet", "raw": "Raw", "coord": "Coord"}[t]
 
 
 def lean_type_atom(t) -> str:
@@ -161,6 +161,30 @@ SPEC = [
     dict(name="fcn", src=("abstract.py", "OptimizationAbstract._fcn"), params={"x": "coords"}, ret="objval", selfr={"_task": ("T", "tasksem")}),
     dict(name="init_agent", src=("abstract.py", "OptimizationAbstract._init_agent"), params={"position": O("raws")}, ret="agent", selfr={"_task": ("T", "tasksem")},
          extra=[("empty_solution", "List Raw"), ("calculate_fitness", "Num → Dir → Num")]),
+    dict(name="contmulti_get_bounds", src=("models.py", "ContinuousMultiVariable.get_bounds"), params={}, ret=T(L("num"), L("num")),
+         selfr={"lower_bounds": ("lower_bounds", L("num")), "upper_bounds": ("upper_bounds", L("num"))}),
+    dict(name="contmulti_children", src=("models.py", "ContinuousMultiVariable.__init__"), params={}, ret=L("var"), init_children=True,
+         selfr={"lower_bounds": ("lower_bounds", L("num")), "upper_bounds": ("upper_bounds", L("num"))}),
+    dict(name="contmulti_size", src=("models.py", "ContinuousMultiVariable.size"), params={}, ret="int",
+         selfr={"lower_bounds": ("lower_bounds", L("num"))}),
+    dict(name="contmulti_has_children", src=("models.py", "ContinuousMultiVariable.has_children"), params={}, ret="bool"),
+    dict(name="multiobj_get_bounds", src=("models.py", "MultiObjectiveVariable.get_bounds"), params={}, ret=T(L("num"), L("num")),
+         selfr={"lower_bounds": ("lower_bounds", L("num")), "upper_bounds": ("upper_bounds", L("num"))}),
+    dict(name="multiobj_children", src=("models.py", "MultiObjectiveVariable.__init__"), params={}, ret=L("var"), init_children=True,
+         selfr={"lower_bounds": ("lower_bounds", L("num")), "upper_bounds": ("upper_bounds", L("num"))}),
+    dict(name="multiobj_size", src=("models.py", "MultiObjectiveVariable.size"), params={}, ret="int",
+         selfr={"lower_bounds": ("lower_bounds", L("num"))}),
+    dict(name="multiobj_has_children", src=("models.py", "MultiObjectiveVariable.has_children"), params={}, ret="bool"),
+    dict(name="discmulti_children", src=("models.py", "DiscreteMultiVariable.__init__"), params={}, ret=L("var"), init_children=True, poly=True,
+         selfr={"choices": ("choices", L(L("A")))}),
+    dict(name="discmulti_size", src=("models.py", "DiscreteMultiVariable.size"), params={}, ret="int", poly=True, selfr={"choices": ("choices", L(L("A")))}),
+    dict(name="discmulti_has_children", src=("models.py", "DiscreteMultiVariable.has_children"), params={}, ret="bool"),
+    dict(name="binary_children", src=("models.py", "BinaryVariable.__init__"), params={}, ret=L("var"), init_children=True, selfr={"n_vars": ("n_vars", "int")}),
+    dict(name="binary_size", src=("models.py", "BinaryVariable.size"), params={}, ret="int", selfr={"n_vars": ("n_vars", "int")}),
+    dict(name="binary_has_children", src=("models.py", "BinaryVariable.has_children"), params={}, ret="bool"),
+    dict(name="task_get_variables", src=("models.py", "Task.get_variables"), params={}, ret=L("var"), selfr={"variables": ("variables", L("vd"))}, uses_dispatch=True),
+    dict(name="task_correct_solution", src=("models.py", "Task.correct_solution"), params={"solution": "raws"}, ret="coords",
+         selfr={"variables": ("variables", L("vd"))}, uses_dispatch=True),
     dict(name="check_input", src=("multitask.py", "Multitask.__check_input__"), params={"name": "str", "kind": "str", "values": O(L("A"))}, poly=True,
          selfr={"_n_algorithms": ("n_algorithms", "int"), "_m_tasks": ("m_tasks", "int")}, ret=O(L(L("A"))), tuple_params=["values"]),
     dict(name="agent_trend", src=("utils.py", "agent_trend"), params={"result": "result", "idx": "int", "iters": O(L("int"))}, ret=L("num")),
@@ -242,7 +266,7 @@ class Fn:
         return t, ty
 
     def coerce(self, term, ty, want, node):
-        if want is None or ty == want:
+        if want is None or ty == want or norm_type(ty) == norm_type(want):
             return term
         if isinstance(want, tuple) and want[0] == "opt":
             if ty == "none":
@@ -300,6 +324,11 @@ class Fn:
             if isinstance(n.value, int):
                 return str(n.value), "intlit"
             self.err(n, f"constant {n.value!r}")
+        if isinstance(n, ast.JoinedStr):
+            # a name / message string: not modelled, but it must not do anything
+            if any(isinstance(x, (ast.Call, ast.NamedExpr, ast.Await, ast.Yield)) for x in ast.walk(n)):
+                self.err(n, "f-string with a call inside")
+            return '""', "str"
         if isinstance(n, ast.Name):
             if n.id in env:
                 return env[n.id]
@@ -377,6 +406,14 @@ class Fn:
             c, cty = self.E(n.test, env)
             a, aty = self.E(n.body, env)
             b, bty = self.E(n.orelse, env)
+            if {repr(aty), repr(bty)} == {repr("vdget"), repr(L("vdget"))}:
+                # `v.get() if v.has_children() else [v.get()]`: either the list of children, or a one-element list of the variable itself
+                def as_vars(t, ty):
+                    if ty == "vdget":
+                        return f"(← Py.getAsList {atom(t)})"
+                    return f"(← {atom(t)}.mapM Py.getAsOne)"
+                a, b = as_vars(a, aty), as_vars(b, bty)
+                aty = bty = L("var")
             if aty != bty:
                 if aty == "intlit" and bty != "intlit":
                     a, aty = self.coerce(a, aty, bty, n.body), bty
@@ -578,6 +615,16 @@ class Fn:
             self.err(node, "internal: effect in a function inferred pure")
 
     def listcomp(self, n, env):
+        if len(n.generators) == 2 and not any(g.is_async or g.ifs for g in n.generators):
+            # [e for a in A for b in B(a)]  ==  flatten([[e for b in B(a)] for a in A])
+            inner = ast.ListComp(elt=n.elt, generators=[n.generators[1]])
+            outer = ast.ListComp(elt=inner, generators=[n.generators[0]])
+            ast.copy_location(inner, n)
+            ast.copy_location(outer, n)
+            t, ty = self.listcomp(outer, env)
+            if not (isinstance(ty, tuple) and ty[0] == "list" and isinstance(ty[1], tuple) and ty[1][0] == "list"):
+                self.err(n, "nested comprehension")
+            return f"({atom(t)}.flatten)", ty[1]
         if len(n.generators) != 1 or n.generators[0].is_async:
             self.err(n, "comprehension with several generators")
         g = n.generators[0]
@@ -679,6 +726,28 @@ class Fn:
                 pname, _, rty = self.spec["opaque"][name]
                 args = [self.E(a, env)[0] for a in n.args]
                 return f"({pname} " + " ".join(atom(a) for a in args) + ")", rty
+            if name == "zip" and len(n.args) == 2 and not n.keywords:
+                a, aty = self.E(n.args[0], env)
+                b, bty = self.E(n.args[1], env)
+                aty, bty = norm_type(aty), norm_type(bty)
+                if not (isinstance(aty, tuple) and aty[0] == "list" and isinstance(bty, tuple) and bty[0] == "list"):
+                    self.err(n, f"zip of {aty} and {bty}")
+                return f"(Py.zip {atom(a)} {atom(b)})", L(T(aty[1], bty[1]))
+            if name == "ContinuousVariable" and not n.args and {kw.arg for kw in n.keywords} == {"name", "lower_bound", "upper_bound"}:
+                kws = {kw.arg: kw.value for kw in n.keywords}
+                self.E(kws["name"], env)
+                lo, loty = self.E(kws["lower_bound"], env)
+                hi, hity = self.E(kws["upper_bound"], env)
+                if loty != "num" or hity != "num":
+                    self.err(n, f"ContinuousVariable bounds of type {loty}, {hity}")
+                return f"(Var.cont {atom(lo)} {atom(hi)})", "var"
+            if name == "DiscreteVariable" and not n.args and {kw.arg for kw in n.keywords} == {"name", "choices"}:
+                kws = {kw.arg: kw.value for kw in n.keywords}
+                self.E(kws["name"], env)
+                c, cty = self.E(kws["choices"], env)
+                if not (isinstance(cty, tuple) and cty[0] == "list"):
+                    self.err(n, f"DiscreteVariable choices of type {cty}")
+                return f"(Var.disc (Py.len {atom(c)}).toNat)", "var"
             if name == "Agent" and not n.args and {kw.arg for kw in n.keywords} == {"position", "cost", "fitness"}:
                 if self.in_lambda:
                     self.err(n, "Agent(...) inside a comprehension")
@@ -754,6 +823,22 @@ class Fn:
                 if aty != L("num") or bty != L("num"):
                     self.err(n, f"np.dot of {aty} and {bty}")
                 return f"({self.tasksem_term(n)}.dot {atom(a)} {atom(b)})", "num"
+            # dynamic dispatch over the declared variable classes / the flattened scalar variables
+            if f.attr in ("get", "has_children", "size") and not n.args and not n.keywords and self.spec.get("uses_dispatch"):
+                rt, rty = self.E(f.value, env)
+                if rty == "vd":
+                    if f.attr == "get":
+                        self.need_eff(n)
+                        return f"(← vd_get {atom(rt)})", "vdget"
+                    if f.attr == "has_children":
+                        return f"(vd_has_children {atom(rt)})", "bool"
+                    return f"(vd_size {atom(rt)})", "int"
+            if f.attr == "correct" and len(n.args) == 1 and not n.keywords and self.spec.get("uses_dispatch"):
+                rt, rty = self.E(f.value, env)
+                a, aty = self.E(n.args[0], env)
+                if rty == "var" and aty == "raw":
+                    self.need_eff(n)
+                    return f"(← Var.correct {atom(rt)} {atom(a)})", "coord"
             # methods of the task object (`self` inside Task, `self._task` inside an optimizer)
             if f.attr in ("correct_solution", "objective_function", "empty_solution", "solve", "initial_solution"):
                 rt, rty = (None, None)
@@ -1106,6 +1191,13 @@ class Fn:
         self.err(target, f"assignment target for a {ty}")
 
     def assign(self, target, value, env, pad):
+        if self.spec.get("init_children") and self.self_path(target) == "_children":
+            v, vty = self.E(value, env, self.spec["ret"])
+            if vty != self.spec["ret"]:
+                self.err(value, f"_children of type {vty}")
+            self.lines.append(f"{pad}return {v}")
+            self.ended = True
+            return
         if isinstance(target, ast.Subscript) and isinstance(target.value, ast.Name) and target.value.id == "kwargs" and "kwargs" in self.spec \
                 and isinstance(target.slice, ast.Constant) and target.slice.value in self.spec["kwargs"]:
             k = target.slice.value
@@ -1210,6 +1302,8 @@ class Fn:
                     self.err(v, f"np.random.seed of a {ty}")
                 self.lines.append(f"{pad}self := {{ self with priv := H.np_random_seed {atom(t)} self.priv }}")
                 return
+        if self.spec.get("init_children") and ast.unparse(v) == "super().__init__(**kwargs)":
+            return       # pydantic stores the declared fields: they are this function's parameters
         if "kwargs" in self.spec and ast.unparse(v) == "super().__init__(**kwargs)":
             fields = ["kw_" + k for k in self.spec["ret_fields"]]
             self.lines.append(f"{pad}return " + (fields[0] if len(fields) == 1 else "(" + ", ".join(fields) + ")"))
@@ -1421,6 +1515,8 @@ class Fn:
         params = [a.arg for a in fn.args.args if a.arg != "self"]
         if list(sp["params"].keys()) != params:
             raise Untranslatable(fn, f"parameters are {params}, the typing spec expects {list(sp['params'].keys())}")
+        if sp.get("init_children") and not (fn.args.kwarg is not None and fn.args.kwarg.arg == "kwargs" and len(fn.body) >= 2):
+            raise Untranslatable(fn, "constructor shape")
         if "kwargs" in sp and not (fn.args.kwarg is not None and fn.args.kwarg.arg == "kwargs"):
             raise Untranslatable(fn, "constructor no longer takes **kwargs")
         self.loop_ret = []
@@ -1517,6 +1613,19 @@ class Fn:
         return pre + doc + "\n" + head + "\n" + "\n".join(self.lines) + "\n"
 
 
+def norm_type(t):
+    """`raws` / `coords` are lists of raw / corrected coordinates"""
+    if t == "raws":
+        return L("raw")
+    if t == "coords":
+        return L("coord")
+    if isinstance(t, tuple) and t[0] in ("list", "opt"):
+        return (t[0], norm_type(t[1]))
+    if isinstance(t, tuple) and t[0] == "tuple":
+        return ("tuple", [norm_type(x) for x in t[1]])
+    return t
+
+
 def print_only(s) -> bool:
     """a statement whose only effect is debug output: `print(...)`, or an `if` guarding nothing but such statements"""
     if isinstance(s, ast.Expr) and isinstance(s.value, ast.Call) and isinstance(s.value.func, ast.Name) and s.value.func.id == "print":
@@ -1591,7 +1700,7 @@ def infer_effects(table) -> set[str]:
                 if isinstance(n.func, ast.Attribute) and f"Task::self.{n.func.attr}" in table and sp["src"][1].split(".")[0] != "Task":
                     cs.add(f"Task::self.{n.func.attr}")
         calls[key] = cs
-        if own or sp.get("selfrec"):
+        if own or sp.get("selfrec") or sp.get("uses_dispatch"):
             eff.add(key)
     changed = True
     while changed:
@@ -1601,6 +1710,62 @@ def infer_effects(table) -> set[str]:
                 eff.add(k)
                 changed = True
     return eff, calls
+
+
+# the declared variable classes: VarDecl constructor, pattern variables, class, prefix of its translated methods, how its fields are read off the
+# constructor's arguments, and the flattened `Var` a scalar class stands for (`get()` returning `self`)
+CLASSES = [
+    (".cont", "lb ub", "ContinuousVariable", "cont", {"lower_bound": "lb", "upper_bound": "ub"}, "(Var.cont lb ub)"),
+    (".contMulti", "lbs ubs", "ContinuousMultiVariable", "contmulti", {"lower_bounds": "lbs", "upper_bounds": "ubs"}, None),
+    (".disc", "n", "DiscreteVariable", "disc", {"choices": "(List.range n)"}, "(Var.disc n)"),
+    (".discMulti", "ns", "DiscreteMultiVariable", "discmulti", {"choices": "(ns.map List.range)"}, None),
+    (".perm", "n", "PermutationVariable", "perm", {"items": "(List.range n)"}, "(Var.perm n)"),
+    (".multiObj", "lbs ubs", "MultiObjectiveVariable", "multiobj", {"lower_bounds": "lbs", "upper_bounds": "ubs"}, None),
+    (".binary", "n", "BinaryVariable", "binary", {"n_vars": "n"}, None),
+]
+
+
+def dispatchers(table, trees, effectful, failed) -> tuple[str | None, str | None]:
+    """`v.has_children()`, `v.size()`, `v.get()` for `v` ranging over the declared variable classes: one match arm per class, each calling the
+    translation of that class's own method (so a change of any class's method changes the dispatcher). Returns (lean text, None) or (None, why)."""
+    by_name = {sp["name"]: sp for sp, _ in table.values()}
+    tree = trees.get("models.py")
+    arms = {"has_children": [], "size": [], "get": []}
+    for ctor, pvars, cls, prefix, binding, scalar in CLASSES:
+        for meth in ("has_children", "size"):
+            fn = f"{prefix}_{meth}"
+            if fn not in by_name or fn in failed:
+                return None, f"{cls}.{meth} is not translated"
+            sp = by_name[fn]
+            args = " ".join(binding[f] for f in sp.get("selfr", {}))
+            call = (fn + " " + args).strip()
+            if fn in effectful:
+                return None, f"{cls}.{meth} can raise"
+            arms[meth].append(f"  | {ctor} {pvars} => {call}")
+        cnode = next((n for n in tree.body if isinstance(n, ast.ClassDef) and n.name == cls), None)
+        gets = [n for n in (cnode.body if cnode else []) if isinstance(n, ast.FunctionDef) and n.name == "get"]
+        if len(gets) != 1 or gets[0].decorator_list:
+            return None, f"{cls}.get not found"
+        body = [st for st in gets[0].body if not (isinstance(st, ast.Expr) and isinstance(st.value, ast.Constant))]
+        src = ast.unparse(body[0]) if len(body) == 1 else None
+        if scalar is not None and src == "return self":
+            arms["get"].append(f"  | {ctor} {pvars} => .ok (.one {scalar})")
+        elif scalar is None and src == "return self._children":
+            fn = f"{prefix}_children"
+            if fn not in by_name or fn in failed:
+                return None, f"{cls}.__init__ (children) is not translated"
+            sp = by_name[fn]
+            args = " ".join(binding[f] for f in sp.get("selfr", {}))
+            call = (fn + " " + args).strip()
+            arms["get"].append(f"  | {ctor} {pvars} => " + (f"VarGet.many <$> {call}" if fn in effectful else f".ok (.many ({call}))"))
+        else:
+            return None, f"{cls}.get is neither `return self` nor `return self._children`"
+    txt = ("/-- `v.has_children()` over the declared variable classes: one arm per class, calling that class's translated method -/\n"
+           "def vd_has_children : VarDecl → Bool\n" + "\n".join(arms["has_children"]) + "\n\n"
+           "/-- `v.size()` -/\ndef vd_size : VarDecl → Int\n" + "\n".join(arms["size"]) + "\n\n"
+           "/-- `v.get()`: the variable itself (`return self`) or the children built by the class's `__init__` (`return self._children`) -/\n"
+           "def vd_get : VarDecl → Except Err VarGet\n" + "\n".join(arms["get"]) + "\n")
+    return txt, None
 
 
 def generate(repo: Path) -> tuple[str, dict]:
@@ -1718,8 +1883,24 @@ def generate(repo: Path) -> tuple[str, dict]:
            "/-! GENERATED by tools/py2lean.py from /repo's working tree — do not edit.",
            "Each definition is the statement-by-statement translation of the named Python function. -/", "", "set_option linter.unusedVariables false", "", "namespace Src", ""]
     failed = set()
+    dispatch_done = False
+    # functions that use the dispatchers come after everything else they might call
+    order = [k for k in order if not table[k][0].get("uses_dispatch")] + [k for k in order if table[k][0].get("uses_dispatch")]
     for k in order:
         sp, node = table[k]
+        if sp.get("uses_dispatch") and not dispatch_done:
+            dispatch_done = True
+            dtxt, dwhy = dispatchers(table, trees, effectful, failed)
+            if dtxt is None:
+                report["untranslatable"]["vd_dispatch"] = dwhy
+                failed.add("vd_dispatch")
+                out.append(f"-- UNTRANSLATABLE dispatch over the variable classes: {dwhy}\n")
+            else:
+                out.append(dtxt)
+        if sp.get("uses_dispatch") and "vd_dispatch" in failed:
+            failed.add(sp["name"])
+            report["untranslatable"][sp["name"]] = "needs the dispatch over the variable classes: " + report["untranslatable"]["vd_dispatch"]
+            continue
         # a function whose callee could not be translated cannot be translated either
         if sp["name"] in guard_fail:
             failed.add(sp["name"])
